@@ -32,8 +32,7 @@ TRUSTED = ['harness/appsim.py + sched.py: whole application on a deterministic l
 ASSUMPTIONS = ['`--concurrent` is parsed but never applied in this tree; N workers are set through PipelineSeries.concurrency '
                '(what a plugin does)', 'no fetch fails (404 counts as a successful answer without document)',
                'plugin hooks disconnected; robots off (C20 covers robots)']
-UNPROVED = ['terminates: a step bound for every run (measure argument written in DESIGN, not yet a theorem); '
-            'termination of the real runs is observed by the harness (hang = loop ran dry)']
+UNPROVED = []
 
 
 class _Res:
